@@ -7,10 +7,13 @@ from .. import cutfind
 from ..core import call_real
 
 ID = "C08"
-LEAN_MODULE = "CKT.Props.C08Full"
+LEAN_MODULE = "CKT.Props.C08Link"
 THEOREMS = [
     # T08.4 at specification level (gate cuts): useless cuts can be removed without changing the subcircuits or raising the overhead
-    "CKT.C08Spec.conn_prune", "CKT.C08Spec.cost_prune_le", "CKT.C08Spec.prune_no_useless", "CKT.C08Spec.useless_cuts_removable"] + ["CKT.C08." + t for t in [
+    "CKT.C08Spec.conn_prune", "CKT.C08Spec.cost_prune_le", "CKT.C08Spec.prune_no_useless", "CKT.C08Spec.useless_cuts_removable",
+    # T08.4 model link (gate cuts): a width-feasible plan without useless cuts is executed step by step by the model (no guard fires), so it is a
+    # goal of the search tree with exactly its overhead; with the flag theorem: the reported minimum is at most the overhead of EVERY width-feasible gate-cut plan
+    "CKT.C08Link.plan_step", "CKT.C08Link.plan_path", "CKT.C08Link.plan_reachable", "CKT.C08Link.conn_eq", "CKT.C08Link.optimize_min_over_gate_plans"] + ["CKT.C08." + t for t in [
     "desc_cost", "insertKey_sorted", "put1_spec", "put_spec", "lb_of_head", "lb_of_empty", "updMin_fields", "updUb_fields",
     "good_flag_of_popped", "loop_good", "pass_good", "flag_sound", "actCost_ge_one", "child_cost", "cut_mono", "firstMin_spec",
     "passes_inv", "startSearch_good", "optimize_flag_sound",
@@ -24,7 +27,8 @@ RULE = ("as C07, with emphasis on search limits: gamma limits below, at and abov
         "the optimum with their integer part below it (greedy warm start not optimal); expensive gates (kappa 7) whose gate-cut child exceeds the incumbent "
         "while a single-wire-cut child does not; compared with the model: flag, overhead (exactly on integer-kappa circuits), cut circuit; distinct by payload")
 ASSUMPTIONS = ["the theorem `optimize_flag_sound` quantifies over the goal states of the model's search tree (per-gate choices that pass the action "
-               "guards within the wire budget); that these are, cost-wise, all width-feasible plans of the specification (useless-cut argument) is "
+               "guards within the wire budget); for gate-cut plans `C08Link.optimize_min_over_gate_plans` proves that these cover, cost-wise, every "
+               "width-feasible plan of the specification (subcircuits = connected components of the applied gates); for plans with wire cuts this is "
                "validated by the brute force over all 5^g plans of the independent segment model, not proved",
                "numpy Generator stream, kappa values and heapq as in C07"]
 
